@@ -157,7 +157,18 @@ Fixpoint eval_e (n : nat) (cx : ctx) (ln : Z) (en : env) (e : expr) {struct n} :
       do c <- read_clo (cx_clo cx);
       do r <- alloc_clo (mkClo ps va body en (c_fenv c) l1 false); ret (VFun r)
   | EBin o a b =>
-      do av <- eval_e n' cx ln en a; do bv <- eval_e n' cx ln en b; binop_v n' (here cx ln) o av bv
+      (* The manual leaves operand evaluation order open. As in lcode.c, a local variable that is
+         the left operand of an arithmetic or comparison operator is not copied: it is read when
+         the operation executes, i.e. after the right operand has been evaluated. *)
+      let late := match o, a with
+                  | OConcat, _ => None
+                  | _, EVar x => lookup en x
+                  | _, _ => None
+                  end in
+      match late with
+      | Some c => do bv <- eval_e n' cx ln en b; do av <- read_cell c; binop_v n' (here cx ln) o av bv
+      | None => do av <- eval_e n' cx ln en a; do bv <- eval_e n' cx ln en b; binop_v n' (here cx ln) o av bv
+      end
   | EUn o a => do av <- eval_e n' cx ln en a; unop_v n' (here cx ln) o av
   | EAnd a b => do av <- eval_e n' cx ln en a; if truthy av then eval_e n' cx ln en b else ret av
   | EOr a b => do av <- eval_e n' cx ln en a; if truthy av then ret av else eval_e n' cx ln en b
@@ -476,7 +487,8 @@ with exec (n : nat) (cx : ctx) (en : env) (st : stmt) {struct n} : M (signal * e
       | [ECall f args] =>        (* proper tail call: the caller's frame is gone *)
           do fv <- eval_e n' cx ln en f;
           do avs <- eval_list_with (eval_e n' cx ln en) (eval_multi n' cx ln en) args;
-          do vs <- call n' ((None, None) :: cx_frames cx) fv avs;
+          (* a host function called in tail position still runs on top of the caller's frame *)
+          do vs <- call n' (match fv with VBuiltin _ => here cx ln | _ => (None, None) :: cx_frames cx end) fv avs;
           ret (SigReturn vs, en)
       | _ => do vs <- eval_list_with (eval_e n' cx ln en) (eval_multi n' cx ln en) es; ret (SigReturn vs, en)
       end
@@ -624,7 +636,7 @@ with builtin_call (n : nat) (fr : list frame) (b : builtin) (args : list value) 
       match a1 with
       | VTab r =>
           do prot <- getmeta a1 s_mm_metatable;
-          if negb (is_nil prot) then raise (VStr s_cannot_change_a_protected_metatable) else
+          if negb (is_nil prot) then raise (VStr ((match fr with (Some l, _) :: _ => pos_prefix l | _ => [] end) ++ s_cannot_change_a_protected_metatable)) else
           do t <- read_tab r;
           match a2 with
           | VNil => write_tab r (mkTab (t_kv t) None) ;; ret [a1]
